@@ -109,6 +109,71 @@ Theorem C11_bufreader_read : forall rs src b dst,
 Proof. exact br_read_spec. Qed.
 Print Assumptions C11_bufreader_read.
 
+(* Take never lets more than its limit through, and what it delivers is the
+   next k bytes of the stream *)
+Theorem C11_take : forall limit a src v,
+  vlen v <= vcap v ->
+  let '(o, v', src', limit') := take_read limit a src v in
+  match o with
+  | OOk k => k <= limit /\ k <= vcap v /\ limit' = limit - k /\
+             src' = skipn k src /\ k <= length src /\
+             cells v' = firstn k src ++ skipn k (cells v) /\
+             vlen v' = Nat.max (vlen v) k
+  | OErr _ => v' = v /\ src' = src /\ limit' = limit
+  end.
+Proof. exact take_read_spec. Qed.
+Print Assumptions C11_take.
+
+(* in-memory writers: Vec<u8> behaves like a file (pwrite with zero-filled
+   hole), for every content, position (also beyond the end) and data; the
+   vectored forms are the sequential composition of the single-buffer ones.
+   The model functions are total: there is no panic case. *)
+Theorem C11_vec_write_at_file : forall d bs pos,
+  vlen d <= vcap d ->
+  let '(k, d') := vec_write_at d bs pos in
+  k = length bs /\ vlen d' <= vcap d' /\ vinit d' = file_write (vinit d) pos bs.
+Proof. exact vec_write_at_file. Qed.
+Print Assumptions C11_vec_write_at_file.
+
+Theorem C11_vec_write_vectored_at_sequential : forall d bss pos,
+  vlen d <= vcap d ->
+  let '(k, d') := vec_write_vectored_at d bss pos in
+  k = length (concat bss) /\ vlen d' <= vcap d' /\
+  vinit d' = file_write (vinit d) pos (concat bss).
+Proof. exact vec_write_vectored_at_file. Qed.
+Print Assumptions C11_vec_write_vectored_at_sequential.
+
+Theorem C11_vec_write_vectored_appends : forall d bss,
+  vlen d <= vcap d ->
+  let '(k, d') := vec_write_vectored d bss in
+  k = length (concat bss) /\ vlen d' <= vcap d' /\ vinit d' = vinit d ++ concat bss.
+Proof. exact vec_write_vectored_is_concat. Qed.
+Print Assumptions C11_vec_write_vectored_appends.
+
+(* in-memory readers: positions beyond the end are clamped (no panic), and a
+   vectored read hands consecutive pieces of the source to the members *)
+Theorem C11_mem_read_at : forall this v pos,
+  vlen v <= vcap v ->
+  let '(k, v') := mem_read_at this v pos in
+  let s := skipn (Nat.min pos (length this)) this in
+  k = Nat.min (length s) (vcap v) /\
+  cells v' = firstn k s ++ skipn k (cells v) /\ vlen v' = Nat.max (vlen v) k.
+Proof. exact mem_read_at_spec. Qed.
+Print Assumptions C11_mem_read_at.
+
+Theorem C11_mem_read_vectored_members : forall ms this,
+  Forall (fun m => vlen m = 0) ms ->
+  concat (map vinit (fill_members this ms)) = firstn (total_cap ms) this /\
+  map vcap (fill_members this ms) = map vcap ms.
+Proof. exact fill_members_spec. Qed.
+Print Assumptions C11_mem_read_vectored_members.
+
+Example C11_nonvacuous_write_at_hole :
+  vec_write_at (mkvec [1;2;3;9;9;9;9;9]%N 3) [7;8]%N 5
+  = (2, mkvec [1;2;3;0;0;7;8;9]%N 7).
+Proof. vm_compute. reflexivity. Qed.
+Print Assumptions C11_nonvacuous_write_at_hole.
+
 (* non-vacuity: the hypotheses are met by concrete non-trivial states, and the
    functions do what the statements say on them *)
 Example C11_nonvacuous_read_exact :
